@@ -703,6 +703,7 @@ func TestCheck(t *testing.T) {
 		replayFile(t, rep, rp)
 		return
 	}
+	blockedWriter(t, rep, shard, of)
 	rep.Info["rule"] = "history = sequence of abstract letters (one client frame or one handler release each), instantiated against the reference machine's state (next odd id / an open stream / the half-closed stream / the stream closed last / an idle id) and replayed on a fresh real http2 serverConn in its own bubble; phases '<config>/depthN' execute EVERY letter sequence of length <= N over the full alphabet (after a connection error only the probe letters H_NEW_ES_NOW, H_NEW_HOLD, PING, RELEASE continue a history; a history stops after a connection-fatal frame that was answered with an admissible stream error only); phases '.../core/depthN/pruned' run the 24 core letters to depth N and expand one representative history per (reference state, remaining depth); configs: first-frame = nothing after the preface, maxK = preface+SETTINGS with SETTINGS_MAX_CONCURRENT_STREAMS=K; states = distinct (config, reference machine state) keys reached; distinct_nontrivial = distinct (letter, (frame,state) class, reaction class) triples in which the server reacted with more than nothing or the frame was not plain-legal"
 	rep.Info["bounds_note"] = "the design asked for 26 letters, full depth 3 (quick) / 4 (thorough) and depths 5-7 pruned on the reference state over the same alphabet. Implemented: 74 letters (every design letter plus length/flag/id variants), full depth 3 / 4 for two concurrency limits (2 as designed, and 1 so that 'refused stream' histories fit the depth), first-frame histories to depth 2 / 3; the pruned deep phases use the 24 'core' letters (depth 5 quick; depth 6 for limit 2 and depth 7 for limit 1 thorough) because the full alphabet at depth 5 exceeds the time budget even with pruning (more than 1.0 M executions, measured)"
 	rep.Info["alphabet"] = letterNames()
@@ -911,11 +912,18 @@ func replayFile(t *testing.T, rep *ev.Report, path string) {
 			Max     int      `json:"max_concurrent_streams"`
 			Letters []string `json:"letters"`
 			Case    string   `json:"case"`
+			Pre     string   `json:"pre"`
+			Trigger string   `json:"trigger"`
 		} `json:"replay"`
 	}
 	b, err := os.ReadFile(path)
 	if err == nil {
 		err = json.Unmarshal(b, &doc)
+	}
+	if err == nil && doc.Replay.Trigger != "" { // a case of the blocked-writer part
+		blockedWriterOnly = doc.Replay.Pre + "/" + doc.Replay.Trigger
+		blockedWriter(t, rep, 0, 1)
+		return
 	}
 	if err == nil && len(doc.Replay.Letters) == 0 && strings.HasPrefix(doc.Replay.Case, "C13_HISTORY=") { // a process-death record
 		ms, ls, _ := strings.Cut(strings.TrimSpace(strings.TrimPrefix(strings.SplitN(doc.Replay.Case, "\n", 2)[0], "C13_HISTORY=")), ":")
